@@ -42,6 +42,21 @@ def compOp (op : String) (j : Json) : Except String Json := do
       | _ => outFromIn eta.fn inv.fn rated p
     return obj [("value", ratJ r), ("branch", Json.str (if usesFwd then "forward" else "inverse")),
                 ("eff", if usesFwd then ratJ (effHat eta.fn (load rated p)) else Json.null)]
+  | "comp.inverse_table" =>
+    -- the interpolated inverse computed by the model alone from the points of the characteristic
+    let rated ← jRat (← fld j "rated")
+    let pts ← (← jArr (← fld j "points")).mapM fun p => do
+      match ← jRats p with
+      | [a, b] => pure (a, b)
+      | _ => throw "expected [load, efficiency]"
+    let vs ← jRats (← fld j "at")
+    match Feems.Pchip.curve pts 0 with
+    | .error e => throw e
+    | .ok _ =>
+      let η := etaOfPoints pts
+      return obj [("accepted", Json.bool (tableMonotoneB η rated)),
+                  ("first", ratJ (knotIn η rated 0)), ("last", ratJ (knotIn η rated 199)),
+                  ("values", ratsJ (vs.map (invTable η rated)))]
   | "comp.machine" =>
     let rated ← jRat (← fld j "rated"); let p ← jRat (← fld j "p")
     let eta ← jTable (← fld j "eta"); let inv ← jTable (← fld j "inv")
